@@ -55,7 +55,7 @@ theorem parseFmap_eq_layout (dec : Dec) (d : Bytes) :
         let bd := pySlice d (8 + headerSize) (8 + headerSize + additionalSize)
         readK .be hd 0 Gen.TextLayouts.fmapHeader fun
           | [_, _, _, _, nfonts, nfontsCap, _, _, _, _, _, _] =>
-            (metaLoop hd nfontsCap.toNat 28).bind fun metadata => fontLoop dec bd nfonts.toNat metadata
+            (metaLoop hd nfontsCap.toNat 28).bind fun metadata => fontLoop dec bd nfonts.toNat metadata 0
           | _ => .error .other
       | _ => .error .other := rfl
 
@@ -65,10 +65,13 @@ theorem metaLoop_succ_eq_layout (hd : Bytes) (n idx : Nat) :
       | _ => .error .other := rfl
 
 /-- one font record at a non-negative displacement -/
-theorem fontLoop_succ_eq_layout (dec : Dec) (bd : Bytes) (n disp : Nat) (fontId : Int) (ms : List (Int × Int)) :
-    fontLoop dec bd (n + 1) (((disp : Int), fontId) :: ms) = readK .be bd disp Gen.TextLayouts.fmapFont fun
-      | [nchars] => (dec (pySlice bd ((disp : Int) + 4) ((disp : Int) + 4 + nchars))).bind fun name =>
-          (fontLoop dec bd n ms).bind fun rest => .ok (⟨name, fontId⟩ :: rest)
+theorem fontLoop_succ_eq_layout (dec : Dec) (bd : Bytes) (n disp : Nat) (fontId : Int) (ms : List (Int × Int)) (acc : Nat) :
+    fontLoop dec bd (n + 1) (((disp : Int), fontId) :: ms) acc = readK .be bd disp Gen.TextLayouts.fmapFont fun
+      | [nchars] =>
+          let nameData := pySlice bd ((disp : Int) + 4) ((disp : Int) + 4 + nchars)
+          if acc + nameData.length > bd.length then .error .value else
+          (dec nameData).bind fun name =>
+          (fontLoop dec bd n ms (acc + nameData.length)).bind fun rest => .ok (⟨name, fontId⟩ :: rest)
       | _ => .error .other := by
   conv => lhs; rw [fontLoop]
   rw [getSI_nat]
